@@ -82,6 +82,17 @@ def _empty_is_not_full(ctx, rep):
     order = [o for o in order if o]
     rep.ob('ring.position-in-ring-before-rotation', 'ring_set_boundaries brings the position into the ring before the rotation, and only then adds the shift',
            order == ['mod', 'shift'], repr(order) + ': a window opened from an empty buffer is rotated with a position outside the ring and stays empty', ctx.where(rsb))
+    # the padding loop runs until the position is congruent to the requested start index: it ends only if that index is
+    # one of the ring's own (0 .. ring_length-1), and the index comes straight from a POKEd byte
+    pads = [w for w in own_nodes(rsb) if isinstance(w, ast.While) and isinstance(w.test, ast.Compare) and len(w.test.ops) == 1 and isinstance(w.test.ops[0], ast.NotEq)
+            and isinstance(w.test.left, ast.BinOp) and isinstance(w.test.left.op, ast.Mod) and 'ring_length' in norm(w.test.left.right)]
+    rep.floor('ring.requested-index-inside-ring', len(pads), 1, 'padding loops in ring_set_boundaries')
+    params = [a.arg for a in rsb.args.args]
+    for w in pads:
+        want = norm(w.test.comparators[0])
+        red = [a for a in rsb.body if a.lineno < w.lineno and isinstance(a, (ast.Assign, ast.AugAssign)) and norm(a.targets[0] if isinstance(a, ast.Assign) else a.target) == want and is_reduction(a)]
+        rep.ob('ring.requested-index-inside-ring', 'ring_set_boundaries: `%s` is reduced modulo the ring length before `%s`' % (want, short(w.test, 50)), bool(red) or want not in params,
+               'an index outside the ring (POKE 1050,62) is never reached modulo the ring length: the loop pads the buffer for ever', ctx.where(w))
     em = class_methods(cls)['empty']
     rets = [norm(r.value) for r in own_nodes(em) if isinstance(r, ast.Return)]
     rep.ob('ring.empty-definition', 'the buffer is empty iff the position has reached the end of the list', rets == ['self._start >= len(self._buffer)'], repr(rets), ctx.where(em))
@@ -235,6 +246,8 @@ def variants(ctx):
         return lambda tree: f(mu.find_def(tree, f_name))
 
     return [
+        Va('poked-pointer-not-wrapped', 'break', KB,
+           in_fn('KeyboardBuffer.ring_set_boundaries', lambda fn: mu.remove_stmt(fn, mu.text_is('newstart %= self._ring_length'))), expect='ring.requested-index-inside-ring'),
         Va('alt-swallows-every-key', 'break', KB, in_fn('Keyboard._key_down', _return_after_try), expect='altcode.only-keypad-digits-swallowed'),
         mu.Variant('alt-keypad-digits-not-cleared', 'break', KB,
                    lambda tree: mu.remove_stmt(mu.find_def(tree, 'Keyboard._key_up'), lambda st: isinstance(st, ast.Assign) and norm(st.targets[0]) == 'self.keypad_ascii'), expect='altcode.consumed-once'),
